@@ -48,6 +48,17 @@ CHECKS["C15"] = {
     "note": TB + "; the English month names used to concretise abstract values are reference data of the harness",
 }
 
+CHECKS["C17"] = {
+    "text": "TLC enumerates every entry of up to 4 (quick) / 5 (thorough) fields over keys {a,A,b,B,c} in every collision "
+            "pattern x {alphabetical, normalise, custom order for all 65 sub-permutations of {a,A,b,c} x case flag}, proves "
+            "that the operational sorts/merge satisfy the declarative clauses (stable permutation, listed-first, last value "
+            "wins at first position, idempotence) and exports the unique result; every case is replayed on the three real "
+            "middlewares (in place and copy) inside a library with other blocks; random entries of up to 30 fields are "
+            "validated by a TLC trace spec.",
+    "ref": "6/C17", "technique": "TLA+ spec (SortFields.tla) + TLC bounded-exhaustive replay + TLC trace validation",
+    "note": TB + "; key order is Python's str order, handed to TLC as ranks",
+}
+
 NOT_APPLICABLE = {}
 for _e in ENGINES:
     _e["serves_properties"] = sorted(CHECKS)
